@@ -123,7 +123,7 @@ Section Plan.
   Proof.
     intros pre rest. revert pre. induction rest as [|st rest IH]; intros pre rows s Hp empty.
     - simpl. destruct empty; simpl; auto.
-    - cbn [osteps_of expected_steps os_body os_nver os_empty_after steps_of map]. unfold vidx.
+    - cbn [osteps_of expected_steps os_body os_nver os_empty_after os_hooks steps_of map]. cbn [app]. unfold vidx.
       set (k := N.of_nat (length pre)).
       assert (Hk : nth_error plan (N.to_nat k) = Some st).
       { unfold k. rewrite Nat2N.id, Hp, nth_error_app2, Nat.sub_diag by lia. reflexivity. }
